@@ -138,6 +138,27 @@ def set_config_event(ev, s, o, gam, h=1, k=0):
         return None
 
 
+def set_scores_event(ev, s, o, gam, cls_="neg", h=1):
+    """History step: one score array of the live object is re-bound to a NEW sorted array (its lowest score
+    dropped, one higher score added; via the FraudScores setters when the object has them).  Returns the
+    new abstract object (or None)."""
+    old = list(o[cls_])
+    top = max(list(o["pos"]) + list(o["neg"]) + [0])
+    new = sorted(old[1:] + [top + 1]) if old else [top + 1]
+    e = ev("SetScores", h=h, cls=cls_, seq=new, post=dict(EMPTY_POST))
+    try:
+        attr = {"pos": "genuines", "neg": "frauds"}[cls_] if hasattr(type(s), "genuines") else cls_
+        setattr(s, attr, gam.arr(new))
+        o2 = dict(o, **{cls_: new})
+        vals = list(o2["pos"]) + list(o2["neg"]) + [0]
+        e["post"] = alpha_obj(s, inv_map(gam, min(vals) - 2, max(vals) + 3) if max(vals) > 35 or min(vals) < -35
+                              else inv_map(gam))
+        return o2
+    except Exception as ex:  # noqa
+        e["exc"] = exc_str(ex)
+        return None
+
+
 def shift_event(ev, s, o, gam, d=2, h=1):
     """History step: a constant is added to every score IN PLACE (the arrays keep their identity and
     dtype).  Only for affine value maps.  Returns the new abstract object (or None)."""
